@@ -45,7 +45,11 @@ Inductive condk :=
 | CEffect (etrue efalse : eff)    (* a condition whose outcome tells something about the
                                      resources: the effect of the taken branch is applied *)
 | CSetFlag                        (* the branch taken is remembered ... *)
-| CTestFlag.                      (* ... and a later condition on the same local variable must agree *)
+| CTestFlag                       (* ... and a later condition on the same local variable must agree *)
+| CRetErr                         (* "err != nil" on the named error result in a deferred literal:
+                                     true exactly when the function is returning an error *)
+| CCalleeRetErr                   (* the same inside an inlined callee *)
+| CRawHeld.                       (* "x != nil" for the variable holding the raw connection: true once it was acquired *)
 
 Inductive aev :=
 | AEff (e : eff)
@@ -375,6 +379,65 @@ Definition fn_relay_dial_up := mkFn "relay_dial_up"
   [("c.upgrader.Upgrade", "upgrade_outer")] [] [] Nop
   ["conn.tagHop"; "connScope.SetPeer"].
 
+
+(* ---- WebRTC: the PeerConnection plays the role of the raw connection; both
+   setupConnection and dial release it in a deferred literal guarded by the
+   named error result ------------------------------------------------------- *)
+Definition fn_rtc_setup := mkFn "rtc_setup"
+  [("newWebRTCConnection", (AcqRaw, Nop, Impossible));
+   ("w.PeerConnection.Close", (RelRaw, RelRaw, RelRaw));
+   ("tConn.Close", (RelConn, RelConn, RelConn))]
+  [] []
+  [("err != nil", CRetErr); ("w.PeerConnection != nil", CRawHeld)]
+  Nop
+  ["addOnConnectionStateChangeCallback"; "createClientSDP"; "ctx.Err"; "detachHandshakeDataChannel";
+   "l.transport.noiseHandshake"; "ma.SplitFunc"; "newConnection"; "newStream"; "peer.IDFromPublicKey";
+   "scope.ReserveMemory"; "scope.SetPeer"; "settingEngine.DetachDataChannels";
+   "settingEngine.DisableCertificateFingerprintVerification"; "settingEngine.SetAnsweringDTLSRole";
+   "settingEngine.SetICECredentials"; "settingEngine.SetICETimeouts"; "settingEngine.SetICEUDPMux";
+   "settingEngine.SetIncludeLoopbackCandidate"; "settingEngine.SetLite"; "settingEngine.SetReceiveMTU";
+   "settingEngine.SetSCTPMaxReceiveBufferSize"; "w.PeerConnection.CreateAnswer";
+   "w.PeerConnection.SetLocalDescription"; "w.PeerConnection.SetRemoteDescription"].
+
+Definition fn_rtc_cand := mkFn "rtc_cand"
+  [("l.transport.rcmgr.OpenConnection", (AcqScope, Nop, Impossible));
+   ("scope.Done", (RelScope, RelScope, RelScope));
+   ("conn.Close", (RelConn, RelConn, RelConn))]
+  [("l.setupConnection", "rtc_setup")] [] [] Nop
+  ["conn.RemotePeer"; "l.transport.gater.InterceptAccept"; "l.transport.gater.InterceptSecured"; "ma.SplitFunc";
+   "manet.FromNetAddr"].
+
+(* listener.listen's per-candidate goroutine *)
+Definition fn_rtc_listen_go := mkFn "rtc_listen_go"
+  [("conn.Close", (RelConn, RelConn, RelConn))]
+  [("l.handleCandidate", "rtc_cand")]
+  [("l.acceptQueue <- conn", HandOver)] [] Nop
+  ["cancel"; "l.mux.RemoveConnByUfrag"].
+
+Definition fn_rtc_dial_inner := mkFn "rtc_dial_inner"
+  [("newWebRTCConnection", (AcqRaw, Nop, Impossible));
+   ("w.PeerConnection.Close", (RelRaw, RelRaw, RelRaw));
+   ("tConn.Close", (RelConn, RelConn, RelConn))]
+  [] []
+  [("err != nil", CRetErr); ("w.PeerConnection != nil", CRawHeld)]
+  Nop
+  ["addOnConnectionStateChangeCallback"; "createServerSDP"; "decodeRemoteFingerprint"; "detachHandshakeDataChannel";
+   "genUfrag"; "genV2ClientCredentials"; "getSupportedSDPHash"; "int"; "ma.SplitFunc"; "manet.DialArgs";
+   "manet.FromNetAddr"; "net.ParseIP"; "net.ResolveUDPAddr"; "newConnection"; "newStream"; "scope.ReserveMemory";
+   "settingEngine.DetachDataChannels"; "settingEngine.SetICECredentials"; "settingEngine.SetICETimeouts";
+   "settingEngine.SetIncludeLoopbackCandidate"; "settingEngine.SetPrflxAcceptanceMinWait";
+   "settingEngine.SetSCTPMaxReceiveBufferSize"; "t.gater.InterceptSecured"; "t.noiseHandshake";
+   "w.HandshakeDataChannel.Transport"; "w.HandshakeDataChannel.Transport().Transport";
+   "w.HandshakeDataChannel.Transport().Transport().ICETransport";
+   "w.HandshakeDataChannel.Transport().Transport().ICETransport().GetSelectedCandidatePair";
+   "w.PeerConnection.CreateOffer"; "w.PeerConnection.SetLocalDescription"; "w.PeerConnection.SetRemoteDescription"].
+
+Definition fn_rtc_dial := mkFn "rtc_dial"
+  [("t.rcmgr.OpenConnection", (AcqScope, Nop, Impossible));
+   ("scope.Done", (RelScope, RelScope, RelScope))]
+  [("t.dial", "rtc_dial_inner")] [] [] Nop
+  ["scope.SetPeer"].
+
 (* ---- resource state and interpretation --------------------------------- *)
 Record st := mkSt {
   raw : res; cscope : res; strm : res; sscope : res;
@@ -431,6 +494,9 @@ Definition astep (s : st) (a : aev) : option st :=
   | ACond (CEffect et ef) b => Some (apply_eff s (if b then et else ef))
   | ACond CSetFlag b => Some (set_flag s b)
   | ACond CTestFlag b => if Bool.eqb b (flag s) then Some s else None
+  | ACond CRetErr b => if Bool.eqb b (is_err (lastret s)) then Some s else None
+  | ACond CCalleeRetErr b => if Bool.eqb b (is_err (calleeret s)) then Some s else None
+  | ACond CRawHeld b => if Bool.eqb b (negb (res_eqb (raw s) Absent)) then Some s else None
   | ARet RTail => Some (match calleeret s with
                         | Some r => set_ret s r
                         | None => if handed s then set_ret s ROk   (* `return f(...)` of an unlisted f that took over *)
@@ -473,6 +539,7 @@ Fixpoint as_callee (p : list aev) (cal : option retk) : list aev :=
   | ARet RTail :: r => ((match cal with Some k => [ACalleeRet k] | None => [ABad "tail"] end) ++ as_callee r cal)%list
   | ARet k :: r => ACalleeRet k :: as_callee r cal
   | ACalleeRet k :: r => ACalleeRet k :: as_callee r (Some k)
+  | ACond CRetErr b :: r => ACond CCalleeRetErr b :: as_callee r cal
   | a :: r => a :: as_callee r cal
   end.
 
